@@ -38,6 +38,10 @@ type Node struct {
 	Mx   int    `json:"mx,omitempty"`
 	Name string `json:"name,omitempty"`
 	Kids []Node `json:"kids,omitempty"`
+	// Tags: the body of a dolist/dotimes has integer tags between its forms
+	Tags bool `json:"tags,omitempty"`
+	// Close: a with-open-file body closes its stream itself at the end
+	Close bool `json:"close,omitempty"`
 	// CErr: the cleanup of an unwind-protect signals an error after its marker
 	CErr bool `json:"cerr,omitempty"`
 }
@@ -105,6 +109,7 @@ type genCtx struct {
 	mutexes int
 	held    map[int]bool
 	files   int
+	inSend  int
 }
 
 var errLeaves = []string{"simple", "div0", "type", "unbound"}
@@ -120,7 +125,9 @@ func (g *genCtx) leaf() Node {
 		return Node{K: "go", Name: g.tags[g.r.Intn(len(g.tags))]}
 	case x < 88:
 		return Node{K: "err", Name: errLeaves[g.r.Intn(len(errLeaves))]}
-	case x < 94:
+	case x < 94 && g.inSend == 0:
+		// (not inside a closure called by a flavors method: a defun evaluated
+		// there loses its parameters on the unchanged tree - not a C07 matter)
 		g.nextID++
 		return Node{K: "recur", ID: g.nextID}
 	}
@@ -187,7 +194,7 @@ func (g *genCtx) node(depth int) Node {
 		return n
 	case x < 62:
 		g.files++
-		return Node{K: "file", ID: id, Kids: g.kids(depth-1, 2)}
+		return Node{K: "file", ID: id, Kids: g.kids(depth-1, 2), Close: g.r.Pct(25)}
 	case x < 67:
 		return Node{K: "ignore", ID: id, Kids: g.kids(depth-1, 2)}
 	case x < 71:
@@ -195,10 +202,33 @@ func (g *genCtx) node(depth int) Node {
 	default:
 		k := []string{"seq", "let", "when", "cond", "dolist", "dotimes", "lambda", "send"}[g.r.Intn(8)]
 		if k == "dolist" || k == "dotimes" {
-			// the loop establishes a nil block: (return v) leaves it
+			// the loop establishes a nil block: (return v) leaves it; its
+			// body is an implicit tagbody
 			g.blocks = append(g.blocks, "nil")
-			n := Node{K: k, ID: id, Kids: g.kids(depth-1, 2)}
+			n := Node{K: k, ID: id}
+			if g.r.Pct(35) {
+				n.Tags = true
+				nk := 2 + g.r.Intn(2)
+				saved := g.tags
+				for i := 0; i < nk; i++ {
+					var later []string
+					for j := i + 1; j < nk; j++ {
+						later = append(later, fmt.Sprint(id*10+j))
+					}
+					g.tags = append(append([]string{}, saved...), later...)
+					n.Kids = append(n.Kids, g.node(depth-1))
+				}
+				g.tags = saved
+			} else {
+				n.Kids = g.kids(depth-1, 2)
+			}
 			g.blocks = g.blocks[:len(g.blocks)-1]
+			return n
+		}
+		if k == "send" {
+			g.inSend++
+			n := Node{K: k, ID: id, Kids: g.kids(depth-1, 2)}
+			g.inSend--
 			return n
 		}
 		return Node{K: k, ID: id, Kids: g.kids(depth-1, 2)}
@@ -218,14 +248,22 @@ func (e *engine) Generate(seed uint64, idx int, tier string, avoid []harness.Fin
 			c.Prog.Kids[i] = Node{K: "ignore", ID: g.nextID, Kids: []Node{c.Prog.Kids[i]}}
 		}
 	}
-	avoidKinds := map[string]bool{}
+	avoidKinds, avoidGo := map[string]bool{}, map[string]bool{}
 	for _, f := range avoid {
-		if strings.HasPrefix(f.Trigger, "nontail:") {
+		if strings.HasPrefix(f.Trigger, "nontail:go:") {
+			avoidGo[strings.TrimPrefix(f.Trigger, "nontail:go:")] = true
+		} else if strings.HasPrefix(f.Trigger, "nontail:") {
 			avoidKinds[strings.TrimPrefix(f.Trigger, "nontail:")] = true
 		}
 	}
 	if len(avoidKinds) > 0 {
+		goMode = false
 		sanitize(&c.Prog, nil, map[string]bool{}, avoidKinds)
+	}
+	if len(avoidGo) > 0 {
+		goMode = true
+		sanitize(&c.Prog, nil, map[string]bool{}, avoidGo)
+		goMode = false
 	}
 	c.Policy = []string{sched.PolicyRandom, sched.PolicyRandom, sched.PolicyPCT, sched.PolicyRTB, sched.PolicyRR}[r.Intn(5)]
 	c.SwitchPct = []int{5, 20, 50, 90}[r.Intn(4)]
@@ -279,10 +317,23 @@ func (n *Node) render(dir string, b *strings.Builder) {
 		fmt.Fprintf(b, "(when t %s)", all())
 	case "cond":
 		fmt.Fprintf(b, "(cond (nil 'no) (t %s))", all())
-	case "dolist":
-		fmt.Fprintf(b, "(let ((lv%d (dolist (e%d '(1 2)) %s))) (sim-emit \"bend\" \"nil\" lv%d) lv%d)", n.ID, n.ID, all(), n.ID, n.ID)
-	case "dotimes":
-		fmt.Fprintf(b, "(let ((lv%d (dotimes (i%d 2) %s))) (sim-emit \"bend\" \"nil\" lv%d) lv%d)", n.ID, n.ID, all(), n.ID, n.ID)
+	case "dolist", "dotimes":
+		body := all()
+		if n.Tags {
+			var parts []string
+			for i := range n.Kids {
+				if i > 0 {
+					parts = append(parts, fmt.Sprintf("%d (sim-emit \"at\" %d)", n.ID*10+i, n.ID*10+i))
+				}
+				parts = append(parts, kid(i))
+			}
+			body = seq(parts)
+		}
+		head := fmt.Sprintf("dolist (e%d '(1 2))", n.ID)
+		if n.K == "dotimes" {
+			head = fmt.Sprintf("dotimes (i%d 2)", n.ID)
+		}
+		fmt.Fprintf(b, "(let ((lv%d (%s %s))) (sim-emit \"bend\" \"nil\" lv%d) lv%d)", n.ID, head, body, n.ID, n.ID)
 	case "lambda":
 		fmt.Fprintf(b, "(funcall (lambda (a%d) %s) %d)", n.ID, all(), n.ID)
 	case "send":
@@ -297,7 +348,8 @@ func (n *Node) render(dir string, b *strings.Builder) {
 		b.WriteString("(tagbody ")
 		for i := range n.Kids {
 			if i > 0 {
-				fmt.Fprintf(b, " %d ", n.ID*10+i)
+				// the marker right after the tag tells that the go arrived
+				fmt.Fprintf(b, " %d (sim-emit \"at\" %d) ", n.ID*10+i, n.ID*10+i)
 			}
 			b.WriteString(kid(i))
 		}
@@ -319,8 +371,12 @@ func (n *Node) render(dir string, b *strings.Builder) {
 		fmt.Fprintf(b, "(with-mutex-lock m%d (unwind-protect (progn (sim-emit \"cs-enter\" %d) %s) (sim-emit \"cs-leave\" %d)))", n.Mx, n.Mx, all(), n.Mx)
 	case "file":
 		path := filepath.Join(dir, fmt.Sprintf("f%d.txt", n.ID))
-		fmt.Fprintf(b, "(with-open-file (f%d %q :direction :output :if-exists :append :if-does-not-exist :create) (sim-emit \"opened\" %d) (format f%d \"line~%%\") (sim-emit \"wrote\" %d) %s (format f%d \"line~%%\") (sim-emit \"wrote\" %d))",
-			n.ID, path, n.ID, n.ID, n.ID, all(), n.ID, n.ID)
+		tail := ""
+		if n.Close {
+			tail = fmt.Sprintf(" (close f%d) (sim-emit \"closed\" %d)", n.ID, n.ID) // the implicit close then finds it closed
+		}
+		fmt.Fprintf(b, "(with-open-file (f%d %q :direction :output :if-exists :append :if-does-not-exist :create) (sim-emit \"opened\" %d) (format f%d \"line~%%\") (sim-emit \"wrote\" %d) %s (format f%d \"line~%%\") (sim-emit \"wrote\" %d)%s)",
+			n.ID, path, n.ID, n.ID, n.ID, all(), n.ID, n.ID, tail)
 	}
 }
 
@@ -538,6 +594,7 @@ func (c *Case) judge(out runOut, f *Fault) *harness.Violation {
 	// I1 + I2: stack discipline of enter/cleanup markers of task 0
 	var stack []string
 	pendingRet := ""  // a return-from to this block is on its way
+	pendingGo := ""   // a go to this tag is on its way
 	lastCleanup := "" // region whose first cleanup form was the last marker
 	inCS := map[string]bool{}
 	lastSignal := ""
@@ -571,10 +628,28 @@ func (c *Case) judge(out runOut, f *Fault) *harness.Violation {
 					what, pendingRet, m.text, trace(out.marks))
 			}
 		}
+		if pendingGo != "" {
+			// after (go tag) only cleanups may run until the form after the tag
+			switch fs[0] {
+			case "cleanup", "cleanup2", "cs-leave", "bend":
+			case "at":
+				if fs[1] != pendingGo {
+					return viol("go-wrong-tag", "%s: (go %s) arrived at tag %s; trace: %s", what, pendingGo, fs[1], trace(out.marks))
+				}
+				pendingGo = ""
+			case "signal", "interrupt":
+				pendingGo = ""
+			default:
+				return viol("go-not-taken", "%s: after (go %s) control went on: %q was reached before the tag; trace: %s", what, pendingGo, m.text, trace(out.marks))
+			}
+		}
 		switch fs[0] {
 		case "leaf":
 			if len(fs) == 3 && fs[1] == "ret" {
 				pendingRet = fs[2]
+			}
+			if len(fs) == 3 && fs[1] == "go" {
+				pendingGo = fs[2]
 			}
 		case "interrupt":
 			interrupted = true
@@ -621,6 +696,9 @@ func (c *Case) judge(out runOut, f *Fault) *harness.Violation {
 		return viol("exit-lost", "%s: (return-from %s ...) never reached its block; the program ended with %s: %s; trace: %s",
 			what, pendingRet, out.mainRes.Cond, out.mainRes.Msg, trace(out.marks))
 	}
+	if pendingGo != "" && (f == nil || f.Kind == "interrupt") {
+		return viol("go-lost", "%s: (go %s) never arrived at its tag (the run ended with %q); trace: %s", what, pendingGo, out.mainRes.Cond, trace(out.marks))
+	}
 	if len(stack) > 0 {
 		return viol("cleanup-missing", "%s: regions %v were entered but their cleanup never ran; trace: %s", what, stack, trace(out.marks))
 	}
@@ -646,6 +724,33 @@ func (c *Case) judge(out runOut, f *Fault) *harness.Violation {
 				return viol("condition-class", "%s: ended with a %s carrying the message of the %s error leaf (%q), which is a %s when signalled directly; trace: %s",
 					what, out.mainRes.Cond, lastSignal, out.mainRes.Msg, want, trace(out.marks))
 			}
+		}
+	}
+	if out.mainRes.Cond != "" && f == nil {
+		// fault-free run: which marker came last, cleanups aside?
+		last := ""
+		for _, m := range out.marks {
+			if m.task != 0 {
+				continue
+			}
+			switch fs := strings.Fields(m.text); fs[0] {
+			case "cleanup", "cleanup2", "cs-leave", "bend", "closed":
+			case "signal":
+				last = "signal " + fs[1]
+			default:
+				last = fs[0]
+			}
+		}
+		if strings.HasPrefix(last, "signal ") {
+			// nothing ran after the error leaf but cleanups: what surfaces is
+			// that error, whatever forms it passed through
+			if want := errClass[strings.TrimPrefix(last, "signal ")]; out.mainRes.Cond != want {
+				return viol("condition-class", "%s: the %s error leaf was the last thing to run, but the program ended with %s (%s) instead of %s; trace: %s",
+					what, strings.TrimPrefix(last, "signal "), out.mainRes.Cond, out.mainRes.Msg, want, trace(out.marks))
+			}
+		} else if lastSignal == "" && pendingRet == "" {
+			// no error leaf ran at all and nothing was injected
+			return viol("spurious-condition", "%s: no error was signalled by the program but it ended with %s: %s; trace: %s", what, out.mainRes.Cond, out.mainRes.Msg, trace(out.marks))
 		}
 	}
 	_ = interrupted
@@ -758,10 +863,53 @@ func (e *engine) Execute(raw json.RawMessage) (vd harness.Verdict) {
 
 // ---- shrinking ----
 
+// validTargets reports whether every return-from names an enclosing block (or
+// "nil" inside a loop) and every go names a later tag of an enclosing tagbody
+// or tagged loop - a shrink candidate must stay a legal program.
+func validTargets(n *Node, blocks, tags []string) bool {
+	switch n.K {
+	case "ret":
+		return contains(blocks, n.Name)
+	case "go":
+		return contains(tags, n.Name)
+	}
+	for i := range n.Kids {
+		b, t := blocks, tags
+		if n.K == "block" {
+			b = append(append([]string{}, blocks...), n.Name)
+		}
+		if n.K == "dolist" || n.K == "dotimes" {
+			b = append(append([]string{}, blocks...), "nil")
+		}
+		if n.K == "tagbody" || n.Tags {
+			t = append([]string{}, tags...)
+			for j := i + 1; j < len(n.Kids); j++ {
+				t = append(t, fmt.Sprint(n.ID*10+j))
+			}
+		}
+		if !validTargets(&n.Kids[i], b, t) {
+			return false
+		}
+	}
+	return true
+}
+
+func contains(xs []string, x string) bool {
+	for _, y := range xs {
+		if x == y {
+			return true
+		}
+	}
+	return false
+}
+
 func (e *engine) Shrink(raw json.RawMessage) (out []json.RawMessage) {
 	var c Case
 	_ = json.Unmarshal(raw, &c)
 	emit := func(n Case) {
+		if !validTargets(&n.Prog, nil, nil) {
+			return
+		}
 		// after a structural change the fault position and schedule are
 		// searched again
 		if n.Fault != nil && n.Fault.Kind == "interrupt" {
@@ -860,7 +1008,9 @@ func (e *engine) Matches(raw json.RawMessage, v *harness.Violation, f harness.Fi
 	}
 	if strings.HasPrefix(f.Trigger, "nontail:") {
 		got := map[string]bool{}
+		goMode = strings.HasPrefix(f.Trigger, "nontail:go:")
 		nonTailCrossings(&c.Prog, nil, map[string][]string{}, got)
+		goMode = false
 		return got[strings.TrimPrefix(f.Trigger, "nontail:")]
 	}
 	if strings.HasPrefix(f.Trigger, "node:") {
@@ -875,12 +1025,26 @@ func (e *engine) Matches(raw json.RawMessage, v *harness.Violation, f harness.Fi
 // exitBlockers are the form kinds (as rendered) whose Lisp form evaluates a
 // body; nonTailCrossings reports under which of them some return-from leaf
 // sits in a non-final position while its target block lies outside the form.
+// goMode selects which exit kind the two walkers below look at: for a go,
+// loops are implicit tagbodies and swallow a go aimed further out in any
+// position, and the reported kinds carry the prefix "go:".
+var goMode bool
+
+func blocksAnyPosition(k string) bool {
+	return k == "tagbody" || k == "file" || (goMode && (k == "dolist" || k == "dotimes" || k == "send"))
+}
+
 func nonTailCrossings(n *Node, visible []string, crossing map[string][]string, out map[string]bool) {
 	// crossing[blockName] = kinds of forms the exit would cross in non-tail position
 	switch n.K {
-	case "ret":
-		for _, k := range crossing[n.Name] {
-			out[k] = true
+	case "ret", "go":
+		if (n.K == "go") == goMode {
+			for _, k := range crossing[n.Name] {
+				if goMode {
+					k = "go:" + k
+				}
+				out[k] = true
+			}
 		}
 		return
 	}
@@ -893,21 +1057,17 @@ func nonTailCrossings(n *Node, visible []string, crossing map[string][]string, o
 		if n.K == "dolist" || n.K == "dotimes" {
 			vis = append(append([]string{}, visible...), "nil")
 		}
+		if n.K == "tagbody" || n.Tags {
+			vis = append([]string{}, vis...)
+			for j := i + 1; j < len(n.Kids); j++ {
+				vis = append(vis, fmt.Sprint(n.ID*10+j))
+			}
+		}
 		last := i == len(n.Kids)-1
 		kind := n.K
 		// how the kids of this kind are rendered: inside which body form
-		nonTail := !last
-		switch n.K {
-		case "uwp", "lock":
-			// (progn <marker> kids...) inside the protected form; for lock an
-			// unwind-protect inside with-mutex-lock
-			nonTail = !last
-		case "file":
-			nonTail = true // a write follows the kids
-		case "tagbody":
-			nonTail = true // tagbody returns nil: it swallows an exit in any position
-		}
-		if nonTail && n.K != "block" {
+		nonTail := !last || blocksAnyPosition(n.K)
+		if nonTail && (n.K != "block" || goMode) {
 			cr = map[string][]string{}
 			for k, v := range crossing {
 				cr[k] = v
@@ -923,8 +1083,8 @@ func nonTailCrossings(n *Node, visible []string, crossing map[string][]string, o
 // sanitize replaces return-from leaves that would cross one of the given
 // form kinds in non-tail position by plain values.
 func sanitize(n *Node, visible []string, unsafe map[string]bool, kinds map[string]bool) {
-	if n.K == "ret" {
-		if unsafe[n.Name] {
+	if n.K == "ret" || n.K == "go" {
+		if (n.K == "go") == goMode && unsafe[n.Name] {
 			*n = Node{K: "val"}
 		}
 		return
@@ -938,9 +1098,15 @@ func sanitize(n *Node, visible []string, unsafe map[string]bool, kinds map[strin
 		if n.K == "dolist" || n.K == "dotimes" {
 			vis = append(append([]string{}, visible...), "nil")
 		}
+		if n.K == "tagbody" || n.Tags {
+			vis = append([]string{}, vis...)
+			for j := i + 1; j < len(n.Kids); j++ {
+				vis = append(vis, fmt.Sprint(n.ID*10+j))
+			}
+		}
 		last := i == len(n.Kids)-1
-		nonTail := !last || n.K == "file" || n.K == "tagbody"
-		if nonTail && n.K != "block" && kinds[n.K] {
+		nonTail := !last || blocksAnyPosition(n.K)
+		if nonTail && (n.K != "block" || goMode) && kinds[n.K] {
 			us = map[string]bool{}
 			for k := range unsafe {
 				us[k] = true
